@@ -317,9 +317,21 @@ var filePool = []string{"/usr/lib/go/src/runtime/proc.go", "/home/user/go/src/gi
 	"/tmp/go-build123/b001/_test/_testmain.go", "/home/a b/c d.go", "/x/y.go.go", "main.go", "/a/b:12/c.go", "/home/user/src/worker.go",
 	"_cgo_gotypes.go", "/weird/.go", "/héllo/wörld.go"}
 
+// deepArg wraps a value in `levels` aggregates: {{{{{v}}}}}
+func deepArg(v ArgSpec, levels int) ArgSpec {
+	for ; levels > 0; levels-- {
+		v = ArgSpec{IsAgg: true, Agg: []ArgSpec{v}}
+	}
+	return v
+}
+
 func genArgs(r *Rng, depth int, max int) ([]ArgSpec, bool) {
 	n := r.Intn(max + 1)
 	out := make([]ArgSpec, 0, n)
+	if depth == 0 && n > 0 && r.Chance(1, 25) {
+		// the deepest nesting the runtime prints
+		out = append(out, deepArg(ArgSpec{V: genValue(r)}, 3+r.Intn(3)))
+	}
 	for i := 0; i < n; i++ {
 		switch k := r.Intn(12); {
 		case k == 0 && depth < 5:
